@@ -36,7 +36,46 @@ import (
 	"time"
 )
 
-type c20Line [2]string // [type, symbol]
+// c20Line is one abstract comment line, logged as [type, symbol] or [type, symbol, n]:
+// n > 0 means the line is rendered exactly n bytes long (sizes are logged as numbers, never as content).
+type c20Line struct {
+	T, Sym string
+	N      int
+}
+
+func (l c20Line) MarshalJSON() ([]byte, error) {
+	if l.N > 0 {
+		return json.Marshal([]interface{}{l.T, l.Sym, l.N})
+	}
+	return json.Marshal([]string{l.T, l.Sym})
+}
+
+func (l *c20Line) UnmarshalJSON(b []byte) error {
+	var a []interface{}
+	if err := json.Unmarshal(b, &a); err != nil {
+		return err
+	}
+	if len(a) < 2 {
+		return fmt.Errorf("bad comment line %s", b)
+	}
+	l.T, _ = a[0].(string)
+	l.Sym, _ = a[1].(string)
+	l.N = 0
+	if len(a) > 2 {
+		if f, ok := a[2].(float64); ok {
+			l.N = int(f)
+		}
+	}
+	return nil
+}
+
+func c20Pad(prefix, suffix string, n int) string {
+	k := n - len(prefix) - len(suffix)
+	if k < 0 {
+		k = 0
+	}
+	return prefix + strings.Repeat("x", k) + suffix
+}
 
 type c20Decl struct {
 	Kind string    `json:"kind"`
@@ -45,6 +84,7 @@ type c20Decl struct {
 	Body []c20Line `json:"body"`
 	Tl   []c20Line `json:"tl"`
 	Ta   []c20Line `json:"ta"`
+	Wide int       `json:"wide"` // var/const only: the declaration is one line of this many bytes (a string literal)
 }
 
 type c20File struct {
@@ -106,7 +146,13 @@ func c20Variant(sym string) int {
 
 // c20Comment renders one abstract comment line (possibly as several physical lines).
 func c20Comment(ln c20Line, name, indent string, sameLine bool) []string {
-	t, sym := ln[0], ln[1]
+	t, sym := ln.T, ln.Sym
+	if ln.N > 0 && t == "K" { // one long /* */ line that contains the annotation text
+		return []string{c20Pad(indent+"/* ", " //go:redirect-from "+sym+" */", ln.N)}
+	}
+	if ln.N > 0 && t == "T" { // one long // line
+		return []string{c20Pad(indent+"// "+name+" is described here. ", "", ln.N)}
+	}
 	switch t {
 	case "R":
 		switch c20Variant(sym) {
@@ -144,7 +190,7 @@ func c20Comment(ln c20Line, name, indent string, sameLine bool) []string {
 func c20Comments(ls []c20Line, name, indent string, skipBlank bool) []string {
 	var out []string
 	for _, ln := range ls {
-		if skipBlank && ln[0] == "B" {
+		if skipBlank && ln.T == "B" {
 			continue
 		}
 		out = append(out, c20Comment(ln, name, indent, false)...)
@@ -179,7 +225,9 @@ func c20RenderDecl(d c20Decl) []string {
 		code = append(code, body...)
 		code = append(code, "\tM(a int) int", "}")
 	case "const":
-		if len(body) == 0 {
+		if d.Wide > 0 && len(body) == 0 {
+			code = append(code, c20Pad("const "+d.Name+" = \"", "\"", d.Wide))
+		} else if len(body) == 0 {
 			code = append(code, "const "+d.Name+" = 1")
 		} else {
 			code = append(code, "const (")
@@ -187,7 +235,9 @@ func c20RenderDecl(d c20Decl) []string {
 			code = append(code, "\t"+d.Name+" = 1", ")")
 		}
 	default: // var
-		if len(body) == 0 {
+		if d.Wide > 0 && len(body) == 0 {
+			code = append(code, c20Pad("var "+d.Name+" = `", "`", d.Wide))
+		} else if len(body) == 0 {
 			code = append(code, "var "+d.Name+" int")
 		} else {
 			code = append(code, "var (")
@@ -196,7 +246,7 @@ func c20RenderDecl(d c20Decl) []string {
 		}
 	}
 	for _, ln := range d.Tl {
-		if ln[0] == "B" {
+		if ln.T == "B" {
 			continue
 		}
 		c := c20Comment(ln, d.Name, "", true)
@@ -493,8 +543,15 @@ func TestVerifC20Run(t *testing.T) {
 		if real {
 			cases = append(cases, c20RealTree(t))
 		}
+		if n > 0 {
+			cases = append(cases, c20ScaleTrees(rng)...)
+		}
 		for i := 0; i < n; i++ {
-			cases = append(cases, c20RandTree(rng, 60))
+			c := c20RandTree(rng, 60)
+			if i%4 == 1 {
+				c20Widen(rng, &c)
+			}
+			cases = append(cases, c)
 		}
 		out, err := os.Create(os.Getenv("TRACE_T"))
 		if err != nil {
@@ -542,7 +599,7 @@ func c20RandLines(rng *rand.Rand, n int, types string, ctr *int, maxR int) []c20
 				sym += strconv.Itoa(*ctr)
 			}
 		}
-		out = append(out, c20Line{t, sym})
+		out = append(out, c20Line{T: t, Sym: sym})
 	}
 	return out
 }
@@ -640,6 +697,93 @@ func c20RandTree(rng *rand.Rand, maxFiles int) c20Case {
 	}
 	c20Normalise(&c)
 	return c
+}
+
+var c20Widths = []int{65535, 65536, 65537, 100000, 70000, 131072, 1 << 20}
+
+// c20Widen gives a tree the input-size dimension: very long source lines (a string literal in a var/const
+// declaration, a // comment, a /* */ comment) before, between and after annotated functions.
+func c20Widen(rng *rand.Rand, c *c20Case) {
+	budget := 3 << 20
+	pick := func() int {
+		n := c20Widths[rng.Intn(len(c20Widths))]
+		if n > budget {
+			n = 65536
+		}
+		budget -= n
+		return n
+	}
+	for fi := range c.Files {
+		f := &c.Files[fi]
+		if len(f.Decls) == 0 || rng.Intn(3) == 0 || budget < 200000 {
+			continue
+		}
+		for k := 1 + rng.Intn(2); k > 0; k-- {
+			at := rng.Intn(len(f.Decls) + 1)
+			switch rng.Intn(3) {
+			case 0: // a new declaration holding a long literal
+				d := c20Decl{Kind: []string{"var", "const"}[rng.Intn(2)], Name: "blob" + strconv.Itoa(fi) + "x" + strconv.Itoa(k), Wide: pick()}
+				f.Decls = append(f.Decls[:at], append([]c20Decl{d}, f.Decls[at:]...)...)
+			case 1: // a long // line on top of an existing doc comment
+				if at == len(f.Decls) {
+					at--
+				}
+				f.Decls[at].Doc = append([]c20Line{{T: "T", N: pick()}}, f.Decls[at].Doc...)
+			default: // a long /* */ line with the annotation text inside, on top of an existing doc comment
+				if at == len(f.Decls) {
+					at--
+				}
+				f.Decls[at].Doc = append([]c20Line{{T: "K", Sym: "runtime.wide" + strconv.Itoa(fi), N: pick()}}, f.Decls[at].Doc...)
+			}
+		}
+	}
+	c20Normalise(c)
+}
+
+// c20ScaleTrees: the other size thresholds of the walk/parse path - more than 1000 files in one directory,
+// a file with more than 1000 declarations (> 64 KiB of source), directories 12 levels deep.
+func c20ScaleTrees(rng *rand.Rand) []c20Case {
+	ctr := 1 << 20
+	fn := func(name string, nR int) c20Decl {
+		return c20Decl{Kind: "func", Name: name, Doc: c20RandLines(rng, nR, "R", &ctr, nR)}
+	}
+	var bigdir c20Case
+	for i := 0; i < 1100; i++ {
+		f := c20File{Dir: []string{"wide"}, Name: "unit" + strconv.Itoa(i), Ext: ".go", Pkg: "wide"}
+		if i%9 == 4 {
+			f.Ext = "_test.go"
+		}
+		if i%50 == 7 || i >= 1090 {
+			f.Decls = []c20Decl{fn("dirfn"+strconv.Itoa(i), 1), {Kind: "var", Name: "v" + strconv.Itoa(i)}, fn("dirfm"+strconv.Itoa(i), 2)}
+		}
+		bigdir.Files = append(bigdir.Files, f)
+	}
+	var bigfile c20Case
+	f := c20File{Dir: []string{"mm"}, Name: "generated", Ext: ".go", Pkg: "mm"}
+	for i := 0; i < 1200; i++ {
+		switch {
+		case i%100 == 99 || i == 0 || i == 1199:
+			f.Decls = append(f.Decls, fn("genfn"+strconv.Itoa(i), 1+i%2))
+		case i%3 == 0:
+			f.Decls = append(f.Decls, c20Decl{Kind: "func", Name: "plain" + strconv.Itoa(i), Doc: []c20Line{{T: "T"}}})
+		default:
+			f.Decls = append(f.Decls, c20Decl{Kind: "const", Name: "k" + strconv.Itoa(i), Doc: []c20Line{{T: "S", Sym: "runtime.k" + strconv.Itoa(i)}}})
+		}
+	}
+	bigfile.Files = []c20File{f, {Dir: []string{"mm"}, Name: "small", Ext: ".go", Pkg: "mm", Decls: []c20Decl{fn("smallfn", 1)}}}
+	var deep c20Case
+	var dir []string
+	for i := 0; i < 12; i++ {
+		dir = append(dir, c20Segs[i%len(c20Segs)])
+		d := append([]string{}, dir...)
+		deep.Files = append(deep.Files, c20File{Dir: d, Name: "level" + strconv.Itoa(i), Ext: ".go", Pkg: d[len(d)-1],
+			Decls: []c20Decl{fn("deepfn"+strconv.Itoa(i), 1), fn("deepfm"+strconv.Itoa(i), 1)}})
+	}
+	out := []c20Case{bigdir, bigfile, deep}
+	for i := range out {
+		c20Normalise(&out[i])
+	}
+	return out
 }
 
 // ---------------------------------------------------------------- decoder: real source text -> abstract tree (line scanner)
@@ -777,28 +921,28 @@ func c20Classify(text string) c20Line {
 	const dir = "//go:redirect-from"
 	if strings.HasPrefix(text, "/*") {
 		if i := strings.Index(text, "go:redirect-from"); i >= 0 {
-			return c20Line{"K", c20FirstField(text[i+len("go:redirect-from"):])}
+			return c20Line{T: "K", Sym: c20FirstField(text[i+len("go:redirect-from"):])}
 		}
-		return c20Line{"T", ""}
+		return c20Line{T: "T", Sym: ""}
 	}
 	if strings.HasPrefix(text, dir) {
 		rest := text[len(dir):]
 		if rest != "" && (rest[0] == ' ' || rest[0] == '\t') && strings.TrimSpace(rest) != "" {
-			return c20Line{"R", strings.TrimSpace(rest)}
+			return c20Line{T: "R", Sym: strings.TrimSpace(rest)}
 		}
-		return c20Line{"D", ""}
+		return c20Line{T: "D", Sym: ""}
 	}
 	if strings.HasPrefix(text, "//go:") {
-		return c20Line{"D", ""}
+		return c20Line{T: "D", Sym: ""}
 	}
 	body := strings.TrimSpace(text[2:])
 	if strings.HasPrefix(body, "go:redirect-from") {
-		return c20Line{"S", strings.TrimSpace(body[len("go:redirect-from"):])}
+		return c20Line{T: "S", Sym: strings.TrimSpace(body[len("go:redirect-from"):])}
 	}
 	if i := strings.Index(text, "go:redirect-from"); i >= 0 {
-		return c20Line{"M", c20FirstField(text[i+len("go:redirect-from"):])}
+		return c20Line{T: "M", Sym: c20FirstField(text[i+len("go:redirect-from"):])}
 	}
-	return c20Line{"T", ""}
+	return c20Line{T: "T", Sym: ""}
 }
 
 func c20Ident(s string) string {
@@ -818,7 +962,7 @@ func c20ScanSource(src string) (hdr []c20Line, pkg string, decls []c20Decl) {
 	keep := false
 	depth := 0
 	trimB := func(l []c20Line) []c20Line {
-		for len(l) > 0 && l[0][0] == "B" {
+		for len(l) > 0 && l[0].T == "B" {
 			l = l[1:]
 		}
 		return l
@@ -836,7 +980,7 @@ func c20ScanSource(src string) (hdr []c20Line, pkg string, decls []c20Decl) {
 				}
 				afterDecl = false
 				if len(pending) > 0 {
-					pending = append(pending, c20Line{"B", ""})
+					pending = append(pending, c20Line{T: "B", Sym: ""})
 				}
 				continue
 			}
@@ -901,7 +1045,7 @@ func c20ScanSource(src string) (hdr []c20Line, pkg string, decls []c20Decl) {
 			cl := c20Classify(c)
 			if depth <= 0 && code != "" {
 				cur.Tl = append(cur.Tl, cl)
-			} else if cl[0] != "T" { // prose inside a body cannot matter and is not logged
+			} else if cl.T != "T" { // prose inside a body cannot matter and is not logged
 				cur.Body = append(cur.Body, cl)
 			}
 		}
@@ -984,13 +1128,13 @@ func TestVerifC20SelfCheck(t *testing.T) {
 	canonL := func(ls []c20Line, dropT bool, dropB bool) string {
 		var s []string
 		for _, l := range ls {
-			if dropT && l[0] == "T" || dropB && l[0] == "B" {
+			if dropT && l.T == "T" || dropB && l.T == "B" {
 				continue
 			}
-			if l[0] == "T" || l[0] == "D" || l[0] == "B" {
-				s = append(s, l[0])
+			if l.T == "T" || l.T == "D" || l.T == "B" {
+				s = append(s, l.T)
 			} else {
-				s = append(s, l[0]+":"+l[1])
+				s = append(s, l.T+":"+l.Sym)
 			}
 		}
 		return strings.Join(s, ",")
@@ -1001,13 +1145,13 @@ func TestVerifC20SelfCheck(t *testing.T) {
 			s := strings.Join(f.Dir, "/") + "|" + f.Name + "|" + f.Ext
 			if strings.HasSuffix(f.Ext, ".go") {
 				hdr := f.Hdr
-				for len(hdr) > 0 && hdr[0][0] == "B" {
+				for len(hdr) > 0 && hdr[0].T == "B" {
 					hdr = hdr[1:]
 				}
 				s += "|" + f.Pkg + "|" + canonL(hdr, false, false)
 				for _, d := range f.Decls {
 					doc := d.Doc
-					for len(doc) > 0 && doc[0][0] == "B" {
+					for len(doc) > 0 && doc[0].T == "B" {
 						doc = doc[1:]
 					}
 					tl := d.Tl
@@ -1025,6 +1169,9 @@ func TestVerifC20SelfCheck(t *testing.T) {
 	}
 	for i := 0; i < c20Env("NTREES", 50); i++ {
 		c := c20RandTree(rng, 60)
+		if i%5 == 2 {
+			c20Widen(rng, &c)
+		}
 		os.RemoveAll(root)
 		if err := c20Materialise(c, root); err != nil {
 			t.Fatal(err)
